@@ -47,6 +47,9 @@ CHECKS = {
  "C18": dict(technique="CrossHair symbolic execution of the replace-family operations with both range ends symbolic inside each isolating node, of lift_target/can_split with symbolic positions and depth, and of Slice.max_open; token-level framing oracle",
              text="For every isolating node of the iso and table templates and every range inside it (incl. its whole content) each replace-family operation with every catalogue payload leaves the tokens before the node's opening and after its closing and the node itself in place (strict form in the iso schema and for the delete family everywhere; for the table-like schema the fitter's documented escape/split mode is an open known finding); lift_target and can_split never cross an isolating ancestor; max_open(open_isolating) counts exactly the non-isolating spine.",
              ref="4/C18"),
+ "C12": dict(technique="CrossHair symbolic execution of transform/structure.py helpers and the Transform methods they guard (positions, depth, direction, type and slice index symbolic); spec-derived validator and leaf-sequence oracle",
+             text="On every catalogue document, for every position / block range / depth / wrapper type / node type / slice, no helper raises, results are in range, and whenever can_split, can_join, join_point, lift_target, find_wrapping, insert_point or drop_point approves, performing the edit records a step and yields a valid document; split, join, lift and wrap keep the text/leaf sequence exactly; a node inserted at insert_point sits exactly there.",
+             ref="4/C12"),
 }
 CHECKS_END = None
 
